@@ -175,5 +175,59 @@ def run(rep: Report, tier: str) -> None:
     rep.rule("R17.4", "no hand-rolled cache (lookup + store in a container that outlives the call) whose key omits a parameter the cached value depends on")
     from sa import globalsx as _gx4
     _gx4.report_handrolled_memos(P, rep, "R17.4", ("vtlengine",), "concurrent or successive API calls then observe each other's results")
+    rep.rule("R17.5", "a function that declares a module global stores it at one point of any path (publish once): no intermediate value of a process-wide setting is visible "
+                      "to another thread between two stores of one call")
+    publish_once(P, rep, "R17.5")
     rep.assumptions = ["operator validate methods and visitor visit_* methods are reachable from the API through dispatch tables",
                        "CPython: attribute/global writes are not atomic with respect to a later read in the same call"]
+
+
+def publish_once(P: Program, rep: Report, rule: str) -> None:
+    """A function that declares `global G` stores G at one point of any path: two stores that can both run in one call (not the two arms of one if)
+    expose an intermediate value of a process-wide setting to every other thread between them."""
+    n = 0
+    for f in P.iter_functions():
+        gl: Set[str] = set()
+        for x in walk_no_nested(f.node):
+            if isinstance(x, ast.Global):
+                gl |= set(x.names)
+        if not gl:
+            continue
+        parent: Dict[ast.AST, Tuple[ast.AST, str]] = {}
+        for p_ in ast.walk(f.node):
+            for fld, val in ast.iter_fields(p_):
+                for ch in (val if isinstance(val, list) else [val]):
+                    if isinstance(ch, ast.AST):
+                        parent[ch] = (p_, fld)
+
+        def arms(node: ast.AST) -> Dict[int, str]:
+            out: Dict[int, str] = {}
+            while node in parent:
+                p2, fld = parent[node]
+                if isinstance(p2, (ast.If, ast.Try)) and fld in ("body", "orelse", "handlers"):
+                    out[id(p2)] = fld
+                node = p2
+            return out
+        sites: Dict[str, List[ast.AST]] = {}
+        for st in walk_no_nested(f.node):
+            tg = st.targets if isinstance(st, ast.Assign) else [st.target] if isinstance(st, (ast.AugAssign, ast.AnnAssign)) else []
+            for t_ in tg:
+                for nm in ast.walk(t_):
+                    if isinstance(nm, ast.Name) and nm.id in gl and isinstance(nm.ctx, ast.Store):
+                        sites.setdefault(nm.id, []).append(st)
+        for g, ss in sorted(sites.items()):
+            n += 1
+            rep.instance(rule, f"{f.qualname}/{g}", nontrivial=True, sample={"global": g, "stores at lines": [s.lineno for s in ss]})
+            for i, a in enumerate(ss):
+                for b in ss[i + 1:]:
+                    aa, ab = arms(a), arms(b)
+                    if any(k in ab and ab[k] != v for k, v in aa.items()):
+                        continue  # the two arms of one if / try: at most one of them runs
+                    rep.add(Finding(rule, f"{rule}/{f.qualname}/{g}", f.module.rel, max(a.lineno, b.lineno), f.qualname,
+                                    f"the process-wide `{g}` is stored twice in one call (lines {a.lineno} and {b.lineno}): between the two stores every other thread reads "
+                                    f"the intermediate value (a raw, not yet validated / normalised setting) - a concurrent run() then behaves unlike the same run() alone"))
+                    break
+                else:
+                    continue
+                break
+    rep.floor(f"{rule} (function, declared global) pairs", n, 3)
